@@ -53,7 +53,7 @@ Qed.
 Lemma c07_num_handoff_partial_proof : C07_num_handoff_partial.
 Proof.
   intros fuel c w lowest merged start stopf pre bn post fend count out burst
-         Hmode Hf Hc HD Hlow Hbn Hstop Hready Hburst.
+         Hmode Hf Hc HD Hlow Hbn Hstop Hready Hburst (b0 & tl & Eb0 & Hb0).
   assert (Hasc : asc (pre ++ bn :: post)).
   { rewrite <- HD. apply chain_ok_asc. apply c06_delivery_segment_proof. exact Hc. }
   destruct (asc_app_inv _ _ Hasc) as (_ & [Hbnpost _] & H12).
@@ -65,7 +65,7 @@ Proof.
       assert (Hj : join_try c w lowest (file_event SNewIrr bn) = Some burst).
       { unfold join_try, file_event. cbn [estep eblk matches_new].
         replace (lowest <=? bnum bn) with true by (symmetry; apply N.leb_le; exact Hbn).
-        rewrite Hmode. cbn [N.eqb andb]. rewrite Hburst, Hready. reflexivity. }
+        rewrite Hmode. cbn [N.eqb andb orb]. rewrite Hburst, Hready, Eb0, Hb0, N.eqb_refl. reflexivity. }
       rewrite Hj. reflexivity.
     + eapply Forall_impl; [|exact Hprebn]. cbn beta. intros x Hx. destruct Hstop as [Hs|Hs]; [left; exact Hs|right; lia].
   - (* pre = the chain blocks in [start, number of bn) *)
